@@ -802,6 +802,19 @@ fn check_snippet(ctx: &mut Ctx, tk: &Tk, fls: &[Fl], text: &str, terms: &BTreeMa
             }
         }
     }
+    // the model's reader of the HTML (the `unescapeChars` of C19_html_roundtrip) on the real rendering
+    if let (Ok(html), false) = (&out.html, outside) {
+        if html.len() <= 4000 {
+            let arg = if html.is_empty() { "-".to_string() } else { dots(html) };
+            let m = ctx.model.ask(&format!("C19 unesc {arg}"));
+            let expect = if out.fragment.is_empty() { "-".to_string() } else { dots(&out.fragment) };
+            ctx.report.count("snippet:model-unescape-of-real-html");
+            if m != expect {
+                ctx.report.violation("model", "C19:model-unescape-mismatch", format!("the model's unescape of the real to_html() {:?} is not the fragment {:?}: {desc}", short(html), short(&out.fragment)), case.clone());
+                return;
+            }
+        }
+    }
     // ---- O4: model ----------------------------------------------------------------------------
     if let Some(m) = model {
         let frag = if out.fragment.is_empty() { "-".to_string() } else { dots(&out.fragment) };
@@ -1044,6 +1057,7 @@ fn check_history(ctx: &mut Ctx, tk: &Tk, fls: &[Fl], steps: &[Step]) {
     ctx.report.count("history:sequences");
     let mut abandoned_before = false;
     let mut nontrivial = false;
+    let mut gots: Vec<Vec<Token>> = vec![];
     for (i, st) in steps.iter().enumerate() {
         let fresh = match tokens_of(&mut build(tk, fls), &st.text) {
             Ok(t) => t,
@@ -1079,6 +1093,7 @@ fn check_history(ctx: &mut Ctx, tk: &Tk, fls: &[Fl], steps: &[Step]) {
                 case);
             return;
         }
+        gots.push(got.clone());
         if let Some(k) = st.take {
             if k < fresh.len() {
                 abandoned_before = true;
@@ -1090,6 +1105,22 @@ fn check_history(ctx: &mut Ctx, tk: &Tk, fls: &[Fl], steps: &[Step]) {
         }
     }
     ctx.report.case(&format!("history|{:?}|{:?}|{:?}", tk, fls, steps.iter().map(|s| (&s.text, s.take)).collect::<Vec<_>>()), nontrivial);
+    // the stateful model of SplitCompoundWords (buffer threaded through the streams, cleared as the
+    // source says) against the reused analyzer, when the compound splitter is the outermost filter
+    if let (Some(split @ Fl::Split(_)), true) = (fls.last(), *tk != Tk::Facet) {
+        let prefix = &fls[..fls.len() - 1];
+        let inners: Vec<Vec<Token>> = steps.iter().map(|s| tokens_of(&mut build(tk, prefix), &s.text).unwrap_or_default()).collect();
+        let all: Vec<Token> = inners.iter().flatten().cloned().collect();
+        let spec = filter_spec(split, &all);
+        let arg = inners.iter().zip(steps).map(|(inner, s)| format!("{}@{}", enc_tokens(inner), s.take.unwrap_or(usize::MAX / 2))).collect::<Vec<_>>().join("#");
+        let m = ctx.model.ask(&format!("C19 splithist {spec} {arg}"));
+        let r = gots.iter().map(|g| enc_tokens(g)).collect::<Vec<_>>().join("#");
+        ctx.report.count("history:stateful-split-model-compared");
+        if m != r {
+            ctx.report.violation("model", "C19:split-history-model-mismatch", format!("reused analyzer {:?}+{:?}: real {} stateful model {}", tk, fls, &r[..r.len().min(200)], &m[..m.len().min(200)]), case.clone());
+            return;
+        }
+    }
     // the fresh-analyzer token list of the last text against the model (and the full oracle)
     if let Some(last) = steps.last() {
         if last.text.len() <= 400 {
@@ -1258,6 +1289,9 @@ pub fn run(ctx: &mut Ctx) {
         "FacetTokenizer + filter chain (text buffer rewritten in place by filters) = model facetChain".into(),
         "SnippetGenerator::snippet: fragment, raw highlighted(), to_html() bytes (or panic) = model".into(),
         "collapse_overlapped_ranges = model collapse".into(),
+        "model unescapeChars(real to_html()) = real fragment()".into(),
+        "NgramTokenizer::new accepts / rejects (min, max) as the model's extracted guards do".into(),
+        "SplitCompoundWords as the outermost filter of a reused analyzer = stateful model (parts buffer threaded through abandoned streams, cleared per the extracted token_stream shape)".into(),
         "history independence: one analyzer reused over a sequence of texts, streams abandoned after k tokens, gives for every text (a prefix of) the fresh-analyzer token list, which is the stateless model's".into(),
         "SnippetGenerator::create over a real index = SnippetGenerator::new with 1/(1+doc_freq) scores".into(),
     ];
@@ -1294,7 +1328,7 @@ pub fn run(ctx: &mut Ctx) {
     }
     let t0 = std::time::Instant::now();
     let mut slowest: (f64, String) = (0.0, String::new());
-    let texts = ctx.budget(3000, 60_000);
+    let texts = ctx.budget(3000, 45_000);
     for _ in 0..texts {
         let mut rng = ctx.rng.fork();
         let text = gen_text(&mut rng);
@@ -1342,13 +1376,23 @@ pub fn run(ctx: &mut Ctx) {
     for _ in 0..ctx.budget(300, 5_000) {
         pretokenized_case(ctx);
     }
+    // NgramTokenizer::new accepts exactly what the model's guards (read from the source) accept
+    for (mn, mx) in [(0usize, 0usize), (0, 1), (1, 1), (1, 2), (2, 1), (3, 3), (4, 3), (5, 1000), (1, usize::MAX)] {
+        let real = if NgramTokenizer::new(mn, mx, false).is_ok() && NgramTokenizer::new(mn, mx, true).is_ok() { "ok" } else { "err" };
+        let m = ctx.model.ask(&format!("C19 ngramnew {mn} {mx}"));
+        ctx.report.case(&format!("ngramnew|{mn}|{mx}"), true);
+        ctx.report.count("ngram-constructor");
+        if m != real {
+            ctx.report.violation("model", "C19:ngram-constructor-guards-mismatch", format!("NgramTokenizer::new({mn}, {mx}, _) is {real}, the model's guards say {m}"), json!({"kind": "ngramnew", "min": mn, "max": mx}));
+        }
+    }
     // corpus: a reused analyzer after a stream abandoned inside a split compound
     {
         let fls = vec![Fl::Lower, Fl::Split(vec!["dampf".into(), "schiff".into(), "fahrt".into(), "über".into()])];
         let steps = vec![Step { text: "Dampfschifffahrt".into(), take: Some(1) }, Step { text: "über".into(), take: None }, Step { text: "x dampfschiff".into(), take: Some(2) }, Step { text: "".into(), take: None }];
         check_history(ctx, &Tk::Simple, &fls, &steps);
     }
-    for _ in 0..ctx.budget(4_000, 80_000) {
+    for _ in 0..ctx.budget(4_000, 40_000) {
         history_case(ctx);
     }
     ctx.report.notes.push(format!("timing (informative only): snippet + collapse cases {:.1}s", t0.elapsed().as_secs_f64()));
